@@ -495,7 +495,10 @@ def check(pid, tier, only=None, keep=False, jobs=None, list_only=False):
                 violations.append((rec['query'], 'build', rp))
             else: problems.append('BUILD-ERROR query=%s %s' % (rec['query'], err[-800:].replace('\n', ' | ')))
             continue
-        if rec.get('witness') in ('UNREACHABLE', 'error') and not q.bughunt:
+        if rec.get('witness') == 'error' and rec['verdict'] == 'inconclusive' and not q.bughunt:
+            # the witness run died (memory cap) on a query that has no verdict either: a resource limit, already reported as inconclusive
+            rec['note_witness'] = 'witness twin ended with a tool error (resource limit): ' + (rec.get('witness_error') or '')[-200:]
+        elif rec.get('witness') in ('UNREACHABLE', 'error') and not q.bughunt:
             problems.append('VACUOUS query=%s witness=%s' % (rec['query'], rec.get('witness')))
         elif rec.get('witness') != 'reachable' and not q.bughunt and rec['verdict'] == 'success':
             # no verdict for the witness twin: the query's own verdict is not counted as covered
